@@ -205,7 +205,11 @@ theorem condvar_notify_wait_edge (s s1 : CondvarState) (notifier w : Nat) (c : C
     ∃ s2 e2, s1.wake w = .ok (s2, c, e2) :=
   Clock.condvar_notify_wait_edge s s1 notifier w c e1 hw hn
 
-/-! ### F13: awaiting an async `JoinHandle` does not join the child's clock -/
+/-! ### F13 (repaired in /repo): awaiting an async `JoinHandle` joins the child's clock
+
+On the pinned tree `JoinHandle::poll` took the result without touching the clocks (poller stayed at `[1,0]`
+against the child's `[1,2]`); the repair makes it `update_clock(child's clock)` like `thread::JoinHandle::join`.
+The model follows the repaired code. -/
 
 section F13
 
@@ -221,17 +225,18 @@ def f13State : ExecState f13P Unit :=
     u := { joins := [{}, { tid := some 1, result := some true }] },
     conts := [.pure (), .pure ()], sch := () }
 
-/-- **F13 in the model**: the poll is `Ready(Ok)`, and the poller's clock is still `[1,0]`, which does not
-dominate the awaited task's clock `[1,2]`. (`thread::JoinHandle::join` would give `[2,2]`.) -/
-theorem f13_async_join_keeps_clock :
+/-- **async join edge on the witness of F13**: the poll is `Ready(Ok)` and the poller's clock becomes `[2,2]`,
+which dominates the awaited task's clock `[1,2]` (exactly what `thread::JoinHandle::join` gives). -/
+theorem f13_async_join_joins_clock :
     ((runSegment f13S 0 40 f13State
         ((Fut.pollJoinHandle f13L 1) >>= fun _ => .pure ())).kernel.tasks.map (·.clock))
-      = [Clock.ofList [1, 0], Clock.ofList [1, 2]] ∧
-    ¬ ple (Clock.ofList [1, 2]) (Clock.ofList [1, 0]) := by
-  refine ⟨by decide, fun h => ?_⟩
-  have := h 1
-  revert this
-  decide
+      = [Clock.ofList [2, 2], Clock.ofList [1, 2]] ∧
+    ple (Clock.ofList [1, 2]) (Clock.ofList [2, 2]) := by
+  refine ⟨by decide, fun i => ?_⟩
+  match i with
+  | 0 => decide
+  | 1 => decide
+  | (n + 2) => simp [Clock.get, Clock.ofList, Clock.toList]
 
 end F13
 
